@@ -331,6 +331,7 @@ func (c *Client) monitor(ctx context.Context) {
 
 			// tell the handler the connection is disconnected
 			c.setState(ctx, Disconnected)
+			verifPoint("monitor.error", err)
 			dlog.Print("disconnected")
 
 			if !c.cfg.sechan.AutoReconnect {
@@ -388,6 +389,7 @@ func (c *Client) monitor(ctx context.Context) {
 					return
 
 				default:
+					verifPoint("monitor.action", uint8(action))
 					switch action {
 
 					case createSecureChannel:
@@ -592,6 +594,7 @@ func (c *Client) monitor(ctx context.Context) {
 				}
 			}
 
+			verifPoint("monitor.done", activeSubs)
 			// clear sechan errors from reconnection
 			for len(c.sechanErr) > 0 {
 				<-c.sechanErr
